@@ -382,7 +382,15 @@ def first_thing_a_run_does(repo, tier, seed):
              "replay_verdict": None if ok else "violation", "replay": None if ok else {"verdict": "violates-natively", "detail": texts}}]
 
 
-CONTRACTS = [Reestablished(), InitialisedBeforeRead()]
+from contracts import C13 as _c13
+
+
+class SharedOptionsNotWritten(_c13.KnownToFail):
+    """The option dictionary of a batch is handed to every country's run: the known-failure patch must go to a copy."""
+    prop = "C14"
+
+
+CONTRACTS = [Reestablished(), InitialisedBeforeRead(), SharedOptionsNotWritten()]
 EXTRA = [persistent_writes, class_level_mutables, files_written_are_never_read, first_thing_a_run_does]
 TRUSTED = [
     "CBC, numpy and pandas are deterministic functions of their inputs; the data files are not modified between runs",
@@ -392,5 +400,5 @@ TRUSTED = [
 ]
 NOT_DECIDED = ["bit-identical output of the external binaries (CBC) across processes - determinism of the solver is assumed, not proved"]
 ASSUMPTIONS = list(TRUSTED)
-MIN_OBLIGATIONS = 6
+MIN_OBLIGATIONS = 12
 LEVEL = "proof"
